@@ -77,9 +77,38 @@ def _fam1(item, out):
                                 "input": f"{U.key(specs[i])}|{U.key(specs[j])}",
                                 "what": f"{U.describe(specs[i])} and {U.describe(specs[j])} differ in the multiset of (element, "
                                         f"neighbour elements) but both hash to {hs[i]}", "item": item, "detail": None})
-    out["distinct"] = n
-    out["evals"] += n
-    out["outcomes"] = {f"fam1-{item['pool']}-pairs": n, f"fam1-{item['pool']}-distinct-hashes": len(set(hs))}
+    # the same elementary difference produced by EDITING a graph that has already been hashed (in place and on a copy):
+    # one element changed through the attribute API, or one bond removed
+    ne = 0
+    for g0 in specs[:: max(1, len(specs) // 150)]:
+        for how in ("inplace", "copy"):
+            for edit in ("element", "bond"):
+                r = U.build(g0)
+                h0 = hash(r)
+                t = r if how == "inplace" else r.copy()
+                m2 = g0.copy()
+                a0 = next(iter(g0.atoms))
+                if edit == "element":
+                    t.set_atom_attribute(a0, "atom_type", "Si")
+                    m2.atoms[a0]["atom_type"] = 14
+                else:
+                    if not g0.bonds or g0.astereo or g0.bstereo:
+                        continue
+                    b = next(iter(g0.bonds))
+                    t.remove_bond(*b)
+                    del m2.bonds[b]
+                if mset(m2) == mset(g0):
+                    continue
+                ne += 1
+                if hash(t) == h0:
+                    out["viol"].append({"sig": f"C16/fam1/{E.SHORT[g0.kind]}/{item['pool']}/edit-{edit}-{how}/collision",
+                                        "input": U.key(g0),
+                                        "what": f"{U.describe(g0)} was hashed, then {edit} edited ({how}): the hash did not change although "
+                                                f"the multiset of (element, neighbour elements) did", "item": item, "detail": None})
+    out["distinct"] = n + ne
+    out["evals"] += n + ne
+    out["outcomes"] = {f"fam1-{item['pool']}-pairs": n, f"fam1-{item['pool']}-distinct-hashes": len(set(hs)),
+                       f"fam1-{item['pool']}-edited-after-hash": ne}
     out["samples"].append({"family": 1, "pool": item["pool"], "graphs": len(specs), "pairs": n})
     return out
 
